@@ -114,12 +114,13 @@ MStep(A, T, RO, refused, tok) ==
     [] op \in {"mul", "div"} ->
          IF refused THEN T ELSE ResFresh(T, RO, ExMerge(OUnit(T, x), OUnit(T, y), IF op = "mul" THEN 1 ELSE -1))
     [] op = "eq" ->
-         \* other.to(self.units()) unless other is zero
-         IF refused \/ OMag(T, y).z \/ Repaired THEN T ELSE ToStr(T, y, OUnit(T, x))
+         \* other.to(self.units()) unless other is zero - before the comparison itself may fail on a Decimal
+         IF ~Convertible(OUnit(T, y), OUnit(T, x)) \/ OMag(T, y).z \/ Repaired THEN T ELSE ToStr(T, y, OUnit(T, x))
     [] op \in {"np.linspace", "np.logspace"} ->
-         \* b = b.to(a.baseunits)
-         IF refused THEN T
-         ELSE LET T1 == IF Repaired THEN T ELSE ToBU(T, y, T.objs[x].b) IN ResShareBU(T1, RO, T1.objs[x].b)
+         \* b = b.to(a.baseunits) - before numpy itself may fail on a Decimal
+         IF ~Convertible(OUnit(T, y), OUnit(T, x)) THEN T
+         ELSE LET T1 == IF Repaired THEN T ELSE ToBU(T, y, T.objs[x].b)
+              IN IF refused THEN T1 ELSE ResShareBU(T1, RO, T1.objs[x].b)
     [] op \in {"radd", "rsub"} ->
          \* left = Quantity(number) ; self.to(left.baseunits)
          IF refused THEN T
@@ -154,6 +155,8 @@ MStep(A, T, RO, refused, tok) ==
                    ELSE [T1 EXCEPT !.mags[T1.objs[x].m].e = tok]
          IN QInit(T2, IF Repaired THEN Len(T2.mags) ELSE T2.objs[x].m, Len(T2.bus))
     [] op = "to" -> IF refused THEN T ELSE ToStr(T, x, A.arg)
+    [] op = "rebase" /\ refused -> T
+    [] op \in {"abse_set", "rele_set"} /\ refused -> T
     [] op = "rebase" ->
          \* self.magnitude *= factor (a new Magnitude) ; self.baseunits = BaseUnits({...})
          LET T1 == FreshBU(T, Rebase(OUnit(T, x)))
@@ -201,28 +204,29 @@ Actions ==
   \cup UNION {{Act("to", x, 0, u) : u \in Targets(io[x].u)} : x \in IF "to" \in InplOps THEN Objs ELSE {}}
   \cup {Act(op, x, 0, <<>>) : op \in InplOps \ {"to"}, x \in Objs}
 
+NoObj == [q |-> 0, u |-> UNone, e |-> 0, dec |-> FALSE, arr |-> FALSE, z |-> FALSE]
+\* (the singleton quantifiers bind I and T to VALUES: TLC would otherwise re-evaluate the LET bodies at every use)
 Step(A) ==
   LET inpl == A.op \in InplaceOps
       tok == 100 + Len(hist)
-      I == IStep(A, io, tok)
-      RO == IF I.res > 0 THEN I.io[I.res] ELSE [q |-> 0, u |-> UNone, e |-> 0, dec |-> FALSE, arr |-> FALSE, z |-> FALSE]
-      T == MStep(A, S, RO, I.raises, tok)
-      old == 1..Len(S.objs)
-      \* departures of this step: objects other than the receiver whose projection changes (must = TRUE) or whose
-      \* Magnitude is replaced by a converted copy of equal projection (must = FALSE: x.f/f may differ from x in the last bit)
-      devs == {[o |-> o, d |-> DevName(A, S, o), must |-> MProj(T, o) # MProj(S, o)] :
-                  o \in {o \in old : o # I.recv /\ (MProj(T, o) # MProj(S, o) \/ T.objs[o].m # S.objs[o].m)}}
   IN /\ Len(hist) < MaxSteps
      /\ IF inpl THEN ninpl < MaxInpl ELSE npure < MaxPure
-     /\ S' = T /\ io' = I.io
+     /\ \E I \in {IStep(A, io, tok)} :
+        \E T \in {MStep(A, S, IF I.res > 0 THEN I.io[I.res] ELSE NoObj, I.raises, tok)} :
+          LET old == 1..Len(S.objs)
+              \* departures of this step: objects other than the receiver whose projection changes (must = TRUE) or whose
+              \* Magnitude is replaced by a converted copy of equal projection (must = FALSE: x.f/f may differ from x in the last bit)
+              devs == {[o |-> o, d |-> DevName(A, S, o), must |-> MProj(T, o) # MProj(S, o)] :
+                          o \in {o \in old : o # I.recv /\ (MProj(T, o) # MProj(S, o) \/ T.objs[o].m # S.objs[o].m)}}
+          IN /\ S' = T /\ io' = I.io
+             /\ hist' = Append(hist, [a |-> A, res |-> I.res, raises |-> I.raises, recv |-> I.recv, devs |-> devs,
+                                      mres |-> IF Len(T.objs) > Len(S.objs) THEN Len(T.objs) ELSE 0,
+                                      iu |-> [o \in 1..Len(I.io) |-> I.io[o].u],
+                                      mu |-> [o \in 1..Len(T.objs) |-> OUnit(T, o)],
+                                      sh |-> [o \in 1..Len(T.objs) |-> <<T.objs[o].m, T.objs[o].b, T.bus[T.objs[o].b].d>>],
+                                      fl |-> [o \in 1..Len(T.objs) |-> <<OMag(T, o).dec, T.bus[T.objs[o].b].dm, OMag(T, o).lin>>]])
      /\ npure' = IF inpl THEN npure ELSE npure + 1
      /\ ninpl' = IF inpl THEN ninpl + 1 ELSE ninpl
-     /\ hist' = Append(hist, [a |-> A, res |-> I.res, raises |-> I.raises, recv |-> I.recv, devs |-> devs,
-                              mres |-> IF Len(T.objs) > Len(S.objs) THEN Len(T.objs) ELSE 0,
-                              iu |-> [o \in 1..Len(I.io) |-> I.io[o].u],
-                              mu |-> [o \in 1..Len(T.objs) |-> OUnit(T, o)],
-                              sh |-> [o \in 1..Len(T.objs) |-> <<T.objs[o].m, T.objs[o].b, T.bus[T.objs[o].b].d>>],
-                              fl |-> [o \in 1..Len(T.objs) |-> <<OMag(T, o).dec, T.bus[T.objs[o].b].dm, OMag(T, o).lin>>]])
      /\ UNCHANGED cfg
 
 Next == Choose \/ (cfg # <<>> /\ \E A \in Actions : Step(A))
